@@ -56,19 +56,40 @@ def run(chk):
         meta.append((case, [1 if g else 0 for g in got]))
 
     # ---------------- (b) real GQR runs replayed by the model from their own norms, (c) the counts
-    for _ in range(500 if thorough else 110):
-        B, n, m, N, L, s = R.gen_region_case(rng, *((12, 7) if thorough else (9, 5)), graded=0.25, tiny=0.15)
-        if rng.random() < 0.3:
+    # minimised failures run first: the recorded finding (exact ties broken differently by scipy's QR and by GQR's argmax)
+    corpus = [(np.array([[1, 0, -3, -1, -2], [1, 0, -3, 2, 3], [2, -1, 2, -3, 1], [-2, -3, 0, 3, 1], [3, 3, 0, 0, 3]], dtype=float), [2, 3, 4], 2, 2),
+              (np.array([[-1, 2, 0], [-1, -1, 3], [1, 3, 0], [-3, -3, -1], [1, -2, 2], [-1, 0, 2]], dtype=float), [4], 3, 0),
+              (np.array([[0, 1, 2, 2], [0, 2, -3, -1], [-3, 0, -1, 2], [2, -1, 0, 2], [-3, 1, -3, -3], [0, 3, -2, 1], [1, 1, -1, 1]], dtype=float), [0, 1, 2], 2, 1)]
+    for it in range((500 if thorough else 110) + len(corpus)):
+        if it < len(corpus):
+            B, L, N, s = corpus[it]
+            n, m = B.shape
+        else:
+            B, n, m, N, L, s = R.gen_region_case(rng, *((12, 7) if thorough else (9, 5)), graded=0.25, tiny=0.15, ties=0.25)
+        if it >= len(corpus) and rng.random() < 0.3:
             # numerically rank-deficient basis (rank < N possible): residuals become rounding-level; the counts are then outside
             # the property's feasibility clause, but SSPOR must still hand back GQR's own first N sensors
             r0 = int(rng.integers(1, m + 1))
             B = (rng.integers(-8, 9, size=(n, r0)) / 4.0) @ (rng.integers(-8, 9, size=(r0, m)) / 3.0)
         A = [int(i) for i in QR().fit(B).get_sensors()]
+        own = [int(i) for i in impl.quiet(GQR().fit, B.copy()).get_sensors()]      # GQR's own unconstrained ranking (its own tie-breaking)
         k = min(n, m)
+        Lset = list(L)
+        L, lform = R.listing(rng, Lset, A) if it >= len(corpus) else (Lset, "sorted")          # the region is a SET: how it is listed must not matter
+        chk.count("region-listing:" + lform)
         for opt in ("max_n", "exact_n", "predetermined"):
             case = {"part": "GQR", "B": B.tolist(), "option": opt, "lin_idx": L, "n_sensors": N, "n_const_sensors": s, "all_sensors": A}
             try:
-                piv, steps = R.run_gqr(B, opt, L, A, N, s, reuse=(chk.evaluations % 2 == 1))
+                s_first = None
+                if it >= len(corpus) and opt != "predetermined" and rng.random() < 0.35:
+                    # the allowance is changed on the same object by a refit that passes only n_const_sensors
+                    lo_s, hi_s = max(0, N - (n - len(Lset))), min(N, len(Lset))
+                    s_first = int(rng.integers(lo_s, hi_s + 1))
+                    piv, steps = R.run_gqr_partial(B, opt, L, A, N, s_first, s)
+                    case["history"] = f"fit(all settings, n_const_sensors={s_first}); fit(B, n_const_sensors={s})"
+                    chk.count("allowance_changed_by_partial_refit")
+                else:
+                    piv, steps = R.run_gqr(B, opt, L, A, N, s, reuse=(chk.evaluations % 2 == 1))
             except Exception as e:
                 chk.count("gqr-rejected:" + type(e).__name__)
                 continue
@@ -81,10 +102,17 @@ def run(chk):
             if zero_residual or tiny:
                 chk.count("ZERO-RESIDUAL-SKIP")
             else:
+                # a failure that needs the handed-in unconstrained ranking to break an exact tie differently from GQR's own argmax is the
+                # recorded finding (known_findings.json); the same failure with all_sensors equal to GQR's own ranking is a different one
+                tie_sfx = ":all_sensors-breaks-a-tie-differently" if own[:N] != A[:N] else ""
+                if tie_sfx:
+                    chk.count("all_sensors_differs_from_gqr_own_ranking")
                 if opt == "max_n" and len(inreg) > s:
-                    chk.violation("impl", "max_n-count", f"max_n: {len(inreg)} region sensors among the first {N} (allowance {s}): {piv[:N]}", ctx)
+                    chk.violation("impl", "max_n-count" + tie_sfx, f"max_n: {len(inreg)} region sensors among the first {N} (allowance {s}): {piv[:N]}"
+                                  + (f"; all_sensors[:N] = {A[:N]}, GQR's own unconstrained ranking starts {own[:N]}" if tie_sfx else ""), ctx)
                 if opt == "exact_n" and len(inreg) != s:
-                    chk.violation("impl", "exact_n-count", f"exact_n: {len(inreg)} region sensors among the first {N} (required {s}): {piv[:N]}", ctx)
+                    chk.violation("impl", "exact_n-count" + tie_sfx, f"exact_n: {len(inreg)} region sensors among the first {N} (required {s}): {piv[:N]}"
+                                  + (f"; all_sensors[:N] = {A[:N]}, GQR's own unconstrained ranking starts {own[:N]}" if tie_sfx else ""), ctx)
                 if opt == "predetermined" and (any(c in L for c in piv[:N - s]) or any(c not in L for c in piv[N - s:N])):
                     chk.violation("impl", "predetermined-split", f"predetermined: first {N - s} must be outside and the next {s} inside the set: {piv[:N]}", ctx)
             # the same through SSPOR (keywords forwarded; N lies below the shuffled tail) - also for degenerate matrices
